@@ -4,7 +4,8 @@ rows = []
 for f in sorted(glob.glob('/verif/seeded/*/meta.json')):
     m = json.load(open(f))
     name = f.split('/')[-2]
-    rows.append(f"| {name} | {m['property']} | {m['change']} | {m['needs_to_manifest']} | {'; '.join(m['caught_by'])} |")
+    caught = '; '.join(m['caught_by']) + (' - NEUTRALISED since /repo fix ' + m['neutralised_by'].split()[0] + ': the change no longer breaks the property' if 'neutralised_by' in m else '')
+    rows.append(f"| {name} | {m['property']} | {m['change']} | {m['needs_to_manifest']} | {caught} |")
 n = len(rows)
 missed = sum(1 for f in glob.glob('/verif/seeded/*/meta.json') if 'missed' in open(f).read())
 txt = ("<!-- seeded-table-begin -->\n| seeded | property | change | needs | caught by |\n|---|---|---|---|---|\n" + "\n".join(rows) +
